@@ -93,7 +93,11 @@ func runC13(r *ev.Run) {
 			rep("ivf.train-error", err.Error())
 			return
 		}
-		scribbleOver(train) // the training buffers are the caller's (trainRaw keeps the values)
+		// the training buffers are the caller's (trainRaw keeps the values): overwriting them must not move the centroids
+		if scribbleAndCheck(idx, train) {
+			rep("ivf.centroids-alias-training-data", fmt.Sprintf("the centroids changed when the caller overwrote its %d training vectors after Train had returned (nlist=%d)", len(train), nlist))
+			return
+		}
 		st0 := comet.VerifIVFState(idx)
 		for ci2, c := range st0.Centroids {
 			for _, x := range c {
